@@ -480,7 +480,9 @@ class LoopBase(Task):
                     k = g.fresh("t")
                     pre.append({"k": "term_mod", "out": k,
                                 "a": {"t": t, "neg": role == "diff",
-                                      "scale": g.r(0.5, 2.0, 2) if role in ("src", "lin") else None}})
+                                      "scale": g.r(0.5, 2.0, 2) if role in ("src", "lin") else None,
+                                      "fmt": rng.choice((None, None, None, "csc", "coo"))
+                                      if role in ("diff", "lin") else None}})
                     self.kept[role] = k
                 specs.append({"t": k})
                 continue
@@ -897,6 +899,18 @@ class Cloner(Task):
             if rng.random() < 0.4:
                 ops += Prober.solve_ops(g, out, g.mesh_of(v))     # the copy is put to use
             return ops
+        if u < 0.39 and v and not g.w.ents[v].meta.get("noprecalc"):
+            # expert flow: hand-assembled system through solveMatrixPDE; the returned
+            # variable joins the pool (copy(), algebra, apply_BCs, solves follow)
+            m_ = g.mesh_of(v)
+            D = g.fresh("f")
+            tD, tT = g.fresh("t"), g.fresh("t")
+            return [{"k": "face", "out": D, "a": {"m": m_, "scalar": g.r(0.3, 2.0, 2)}},
+                    {"k": "build", "out": tD, "a": {"fn": "diffusionTerm", "args": [D]}},
+                    {"k": "build", "out": tT, "a": {"fn": "transientTerm", "args": [v, g.r(0.05, 2.0, 3), 1.0]}},
+                    {"k": "matrixpde", "out": g.fresh("v"), "outb": g.fresh("b"),
+                     "a": {"v": v, "terms": [{"t": tT}, {"t": tD, "neg": True}]}},
+                    {"k": "drop", "a": {"names": [tD, tT, D]}}]
         if u < 0.42 and v:
             return [{"k": "apply", "a": {"v": v}}]      # an explicit, harmless apply_BCs()
         if u < 0.68 and g.sw["share_bc"]:
